@@ -65,7 +65,13 @@ type obsT struct {
 	VTErr  string `json:"vt_err"`
 	SizeVT int    `json:"size_vt"`
 	// the four decodings of the two Go encodings
-	PB2VT decRes `json:"pb2vt"` // UnmarshalVT(proto bytes)
+	// plain proto.Marshal (default options: what the ttRPC codec calls; Go maps are walked in
+	// their random order by a different library routine than the Deterministic one)
+	PBD    string `json:"pbd"`
+	PBDErr string `json:"pbd_err"`
+	PBD2VT decRes `json:"pbd2vt"` // UnmarshalVT(proto.Marshal(m))
+	PBD2PB decRes `json:"pbd2pb"`
+	PB2VT  decRes `json:"pb2vt"` // UnmarshalVT(deterministic proto bytes)
 	VT2PB decRes `json:"vt2pb"` // proto.Unmarshal(MarshalVT bytes)
 	PB2PB decRes `json:"pb2pb"`
 	VT2VT decRes `json:"vt2vt"`
@@ -171,7 +177,8 @@ func (s *schema) execCase(in *caseIn, lean []variant, leanErr string) (*obsT, er
 		}
 		o.BuildErr = line
 		o.PBErr, o.VTErr = "no-message", "no-message"
-		for _, d := range []*decRes{&o.PB2VT, &o.VT2PB, &o.PB2PB, &o.VT2VT} {
+		o.PBDErr = "no-message"
+		for _, d := range []*decRes{&o.PB2VT, &o.VT2PB, &o.PB2PB, &o.VT2VT, &o.PBD2VT, &o.PBD2PB} {
 			d.Err = "no-input"
 		}
 		return o, nil
@@ -188,6 +195,20 @@ func (s *schema) execCase(in *caseIn, lean []variant, leanErr string) (*obsT, er
 		o.PB = hex.EncodeToString(pb)
 	}
 	_ = safely(func() error { o.PBSize = proto.Size(orig); return nil })
+	var pbd []byte
+	err = safely(func() error {
+		var e error
+		pbd, e = proto.Marshal(orig)
+		return e
+	})
+	o.PBDErr = errKind(err)
+	if err == nil {
+		o.PBD = hex.EncodeToString(pbd)
+		o.PBD2VT = decodeWith(md, orig, want, pbd, true)
+		o.PBD2PB = decodeWith(md, orig, want, pbd, false)
+	} else {
+		o.PBD2VT.Err, o.PBD2PB.Err = "no-input", "no-input"
+	}
 	v, hasVT := orig.(vtMsg)
 	o.HasVT = hasVT
 	if hasVT {
